@@ -95,10 +95,14 @@ func (fs *h07_fs) install() {
 		h := fs.handles[f]
 		fs.tick()
 		d := fs.files[h.name]
-		for len(d) < h.pos+len(b) {
-			d = append(d, 0)
+		if h.pos == len(d) {
+			d = append(d, b...)
+		} else {
+			for len(d) < h.pos+len(b) {
+				d = append(d, 0)
+			}
+			copy(d[h.pos:], b)
 		}
-		copy(d[h.pos:], b)
 		fs.files[h.name] = d
 		h.pos += len(b)
 		return len(b), nil
@@ -248,7 +252,14 @@ func h07_move(t []*h07_block, db *UnspentDB, from, to int) {
 // Close exactly the last tip) holding exactly the replay of that tip's chain, and bringing it to the session's final
 // tip - disconnecting with the undo files found in the directory, connecting the remaining blocks - must give the
 // replay of that tip's chain.
-func H_C07_UtxoStore() {
+func H_C07_UtxoStore() { h07_session(false) }
+
+// C07: the same with a snapshot that is written in two pieces (a fifth record with a 70000-byte script: the writer
+// goroutine gets a 64 KB buffer and the rest), so that a crash can fall between the two writes: from a snapshot at G,
+// two operations, crash before the k-th file operation.
+func H_C07_SnapshotInTwoWrites() { h07_session(true) }
+
+func h07_session(big bool) {
 	zzverif.LazyGo()
 	// one output value is arbitrary (within the 9-byte class of the record encoding, so that it does not fork the
 	// serialiser), the others are fixed
@@ -257,9 +268,19 @@ func H_C07_UtxoStore() {
 	t := h07_tree(v0, v1, n0)
 	ids := []byte{1, 2, 3, 4}
 	startAt := []int{h07G, h07A}[zzverif.Enum("start-at", 2)]
-	nops := 3 + zzverif.Tier()
-	crashAt := zzverif.Enum("crash-before-file-op", 16+6*zzverif.Tier()) // 0: no crash
-	zzverif.Bound("workload", "a tree of four blocks over four records (one output value arbitrary in 2^32..21e14, the others fixed); the directory holds a snapshot at G, or at A with A's undo file; 3 (thorough 4) operations from {connect a block that fits the tip, disconnect the tip, snapshot}; crash before the k-th create / write / rename / remove, k in 1..15 (21), or a clean Close; snapshots small enough to be written in one piece (an aborted snapshot is outside)")
+	nops := 3 + 2*zzverif.Tier()
+	crashAt := zzverif.Enum("crash-before-file-op", 16+12*zzverif.Tier()) // 0: no crash
+	var filler *[]byte
+	if big {
+		zzverif.Assume(startAt == h07G && crashAt < 14)
+		nops = 2
+		UTXO_WRITING_TIME_TARGET = 0 // write at full speed (no pacing by the clock)
+		r := h17_rec(0, 40, []uint64{777}, []bool{true})
+		r.Outs[0].PKScr = make([]byte, 70000)
+		filler = Serialize(r, nil)
+		zzverif.Bound("two-piece snapshot", "a fifth record of 70 KB present in every state; snapshot at G; 2 operations; crash before the k-th file operation, k in 1..13; UTXO_WRITING_TIME_TARGET = 0")
+	}
+	zzverif.Bound("workload", "a tree of four blocks over four records (one output value arbitrary in 2^32..21e14, the others fixed); the directory holds a snapshot at G, or at A with A's undo file; 3 (thorough 5) operations from {connect a block that fits the tip, disconnect the tip, snapshot}; crash before the k-th create / write / rename / remove, k in 1..15 (27), or a clean Close; snapshots small enough to be written in one piece (an aborted snapshot is outside)")
 	var ops []int // 0..3: connect block i; 4: disconnect; 5: snapshot
 	tip := startAt
 	for s := 0; s < nops; s++ {
@@ -289,6 +310,9 @@ func H_C07_UtxoStore() {
 	earlier := func() {
 		db := NewUnspentDb(&NewUnspentOpts{Dir: dir, Rescan: true})
 		db.HashMap[1][h17_key(1)] = Serialize(h17_rec(1, 50, []uint64{v0, v1}, []bool{true, true}), nil)
+		if filler != nil {
+			db.HashMap[0][h17_key(0)] = filler
+		}
 		db.LastBlockHash = append([]byte{}, t[h07G].hash...)
 		db.LastBlockHeight = 99
 		db.DirtyDB.Set()
@@ -372,7 +396,11 @@ func H_C07_UtxoStore() {
 		return
 	}
 	check := func(crashed bool, durable, pending int, stale map[int]bool, fail func(label string)) {
-		db := open()
+		var db *UnspentDB
+		if zzverif.Hangs(func() { db = open() }) {
+			fail("C07.utxo.reopen.terminates")
+			return
+		}
 		at := h07_tip(t, db)
 		ok := at >= 0 && (at == durable || at == pending)
 		if !crashed {
@@ -390,7 +418,15 @@ func H_C07_UtxoStore() {
 		// known finding: undo files are named by height alone. A snapshot of tip T stays on disk while T is disconnected
 		// and a competing block of the same height is connected - that block's undo data replaces T's. A crash before
 		// the next snapshot brings the store up at T with an undo file that is not T's.
-		zzverif.Known("C07-undo-file-of-other-branch", crashed && stale[at])
+		// (T: any block that has to be disconnected on the way from the reopened tip to the final one.)
+		anc, staleOnPath := map[int]bool{}, false
+		for i := target; i >= 0; i = t[i].parent {
+			anc[i] = true
+		}
+		for i := at; !anc[i]; i = t[i].parent {
+			staleOnPath = staleOnPath || stale[i]
+		}
+		zzverif.Known("C07-undo-file-of-other-branch", crashed && staleOnPath)
 		moved := !zzverif.Panics(func() { h07_move(t, db, at, target) })
 		if !moved || h07_tip(t, db) != target || !h17_same(h17_state(db, ids), t[target].state) {
 			fail("C07.utxo.catch-up.state")
@@ -442,7 +478,7 @@ func H_C07_UtxoStore() {
 			check(!finished, durable, pending, stale, func(label string) { failures = append(failures, label) })
 		}
 		os.RemoveAll(d)
-		if finished && n >= 0 || !zzverif.HaveGdb() {
+		if finished && n >= 0 || !zzverif.HaveGdb() || (len(failures) > 0 && failures[len(failures)-1] == want) {
 			break
 		}
 	}
